@@ -77,6 +77,9 @@ type caseOut struct {
 	Registers []bool   `json:"registers,omitempty"` // tokens: per candidate token form
 	Charged   []bool   `json:"charged,omitempty"`
 	Forms     []string `json:"forms,omitempty"`
+	Keys      []string `json:"keys,omitempty"`   // addr: extractIP key per shape
+	Peers     []int    `json:"peers,omitempty"`  // addr: peer identity per shape
+	Evaded    []string `json:"evaded,omitempty"` // addr: end-to-end evasions
 	Admitted  []int    `json:"admitted,omitempty"`
 	ElapsedNs []int64  `json:"elapsed_ns,omitempty"`
 }
@@ -512,6 +515,149 @@ func runShadow(c *caseIn) *caseOut {
 	return out
 }
 
+// cleanup() racing with the renewal of a lapsed entry: `entries` lapsed temporary entries are in the table (nobody
+// queried them); cleanup() runs while other goroutines re-establish some of them for an hour.  Whatever the
+// interleaving, a renewed entry must still be in force afterwards (Lost = renewed entries that are gone).
+func runSweepRace(c *caseIn) *caseOut {
+	out := &caseOut{Kind: "sweeprace", Trials: c.Trials}
+	for t := 0; t < c.Trials; t++ {
+		g := newRig(cfgIn{MaxF: 5, WindowMs: 200, BanMs: 300, Perm: 20, Rate: 10, Burst: 20, TTLMs: 60000})
+		n := c.Keys
+		addr := func(i int) string { return fmt.Sprintf("10.%d.%d.%d", 3+(i>>16)&255, (i>>8)&255, i&255) }
+		for i := 0; i < n; i++ {
+			if c.Which == "bl" {
+				must(g.m.AddToBlacklist(addr(i), time.Millisecond, "short", "admin"))
+			} else {
+				g.p.BanIP(addr(i), time.Millisecond, "short")
+			}
+		}
+		time.Sleep(5 * time.Millisecond)
+		workers := 6
+		var ready, done sync.WaitGroup
+		var start int32
+		renewed := make([][]int, workers)
+		for w := 0; w < workers; w++ {
+			ready.Add(1)
+			done.Add(1)
+			go func(w int) {
+				defer done.Done()
+				ready.Done()
+				for atomic.LoadInt32(&start) == 0 {
+				}
+				// spread over the table; the first renewals are issued while cleanup() is scanning
+				for i := w * 7; i < n; i += n/13 + 1 {
+					if c.Which == "bl" {
+						must(g.m.AddToBlacklist(addr(i), time.Hour, "renewed", "admin"))
+					} else {
+						g.p.BanIP(addr(i), time.Hour, "renewed")
+					}
+					renewed[w] = append(renewed[w], i)
+					if len(renewed[w]) >= 12 {
+						break
+					}
+				}
+			}(w)
+		}
+		ready.Add(1)
+		done.Add(1)
+		go func() {
+			defer done.Done()
+			ready.Done()
+			for atomic.LoadInt32(&start) == 0 {
+			}
+			if c.Which == "bl" {
+				g.m.VerifCleanup()
+			} else {
+				g.p.VerifCleanup()
+			}
+		}()
+		ready.Wait()
+		time.Sleep(200 * time.Microsecond)
+		atomic.StoreInt32(&start, 1)
+		done.Wait()
+		for _, l := range renewed {
+			for _, i := range l {
+				if c.Which == "bl" {
+					if ok, _ := g.m.IsAllowed(addr(i)); ok {
+						out.Lost++
+					}
+				} else if b, _ := g.p.IsBanned(addr(i)); !b {
+					out.Lost++
+				}
+			}
+		}
+		g.cancel()
+	}
+	return out
+}
+
+// strAddr is what adapters that do not hand out *net.TCPAddr / *net.UDPAddr give to the handler: only String()
+type strAddr string
+
+func (a strAddr) Network() string { return "tcp" }
+func (a strAddr) String() string  { return string(a) }
+
+type addrShape struct {
+	Peer int // shapes with the same Peer are the same remote IP
+	Addr net.Addr
+	Text string
+}
+
+// every way one peer address can reach extractIP: typed addresses (with and without an IPv6 zone) and the string
+// forms with / without port, brackets and zone
+func addrShapes() []addrShape {
+	mk := func(peer int, a net.Addr) addrShape { return addrShape{peer, a, fmt.Sprintf("%T %s", a, a.String())} }
+	ll := net.ParseIP("fe80::1")
+	return []addrShape{
+		mk(0, &net.TCPAddr{IP: net.ParseIP("192.0.2.7"), Port: 1}),
+		mk(0, &net.UDPAddr{IP: net.ParseIP("192.0.2.7"), Port: 2}),
+		mk(0, strAddr("192.0.2.7:40000")),
+		mk(0, strAddr("192.0.2.7")),
+		mk(1, &net.TCPAddr{IP: ll, Port: 1}),
+		mk(1, &net.TCPAddr{IP: ll, Port: 1, Zone: "eth0"}),
+		mk(1, &net.UDPAddr{IP: ll, Port: 9, Zone: "wlan1"}),
+		mk(1, strAddr("[fe80::1]:443")),
+		mk(1, strAddr("[fe80::1%eth0]:443")),
+		mk(1, strAddr("[fe80::1%eth1]:8443")),
+		mk(1, strAddr("[fe80::1%25]:1")),
+		mk(1, strAddr("fe80::1%eth0")),
+		mk(1, strAddr("fe80::1")),
+		mk(2, &net.TCPAddr{IP: net.ParseIP("2001:db8::5"), Port: 1}),
+		mk(2, strAddr("[2001:db8::5]:51000")),
+		mk(2, strAddr("2001:db8::5")),
+		mk(3, strAddr("[fe80::2%eth0]:443")),
+		mk(3, &net.TCPAddr{IP: net.ParseIP("fe80::2"), Port: 1, Zone: "eth0"}),
+	}
+}
+
+// runAddr: the keys extractIP derives, and end to end: an address banned / blacklisted under the key of one shape
+// must be refused when it arrives in any other shape of the same peer
+func runAddr(c *caseIn) *caseOut {
+	out := &caseOut{Kind: "addr"}
+	shapes := addrShapes()
+	for _, sh := range shapes {
+		out.Forms = append(out.Forms, sh.Text)
+		out.Keys = append(out.Keys, server.VerifExtractIP(sh.Addr))
+		out.Peers = append(out.Peers, sh.Peer)
+	}
+	for i, a := range shapes {
+		g := newRig(cfgIn{MaxF: 5, WindowMs: 2000, BanMs: 60000, Perm: 50, Rate: 100, Burst: 100, TTLMs: 60000})
+		g.p.BanIP(server.VerifExtractIP(a.Addr), time.Hour, "banned in this shape")
+		for j, b := range shapes {
+			if a.Peer != b.Peer || i == j {
+				continue
+			}
+			conn := &fakeConn{addr: b.Addr}
+			resp, _ := g.h.HandleHandshake(conn, &packet.HandshakeRequest{ClientID: 4242, Version: "1", Protocol: "tcp"})
+			if classify(resp) != 1 {
+				out.Evaded = append(out.Evaded, fmt.Sprintf("banned as %q, let through as %q (answer %d)", a.Text, b.Text, classify(resp)))
+			}
+		}
+		g.cancel()
+	}
+	return out
+}
+
 func runCase(raw []byte) *caseOut {
 	var c caseIn
 	must(json.Unmarshal(raw, &c))
@@ -526,6 +672,10 @@ func runCase(raw []byte) *caseOut {
 		return runBurst(&c)
 	case "shadow":
 		return runShadow(&c)
+	case "sweeprace":
+		return runSweepRace(&c)
+	case "addr":
+		return runAddr(&c)
 	case "tokens":
 		reg, ch := tokenTable()
 		return &caseOut{Kind: "tokens", Registers: reg, Charged: ch, Forms: tokenForms}
@@ -553,6 +703,17 @@ func gen() {
 	fmt.Println("Definition token_table : list (bool * bool) := (")
 	for i := range reg {
 		fmt.Printf("  (%v, %v) :: (* %q *)\n", reg[i], ch[i], tokenForms[i])
+	}
+	fmt.Println("  nil)%list.")
+	fmt.Println("(* extractIP probed on every shape in which one peer address can reach the handler: (peer, index of the distinct key) *)")
+	fmt.Println("Definition addr_key_table : list (nat * nat) := (")
+	idx := map[string]int{}
+	for _, sh := range addrShapes() {
+		k := server.VerifExtractIP(sh.Addr)
+		if _, ok := idx[k]; !ok {
+			idx[k] = len(idx)
+		}
+		fmt.Printf("  (%d, %d)%%nat :: (* %s -> %q *)\n", sh.Peer, idx[k], sh.Text, k)
 	}
 	fmt.Println("  nil)%list.")
 	fmt.Printf("Definition TunnelRate : Z := %d.\nDefinition TunnelBurst : Z := %d.\nDefinition TunnelTTLMs : Z := %d.\n", tc.Rate, tc.Burst, tc.TTL.Milliseconds())
